@@ -154,6 +154,17 @@ func c07RunOn(s *Server, c c07Cell) (obs, sig, msg string) {
 		if cctx.Err() != nil {
 			return fail("connect-hangs", "Connect did not return within a minute of virtual time: %v", err)
 		}
+		// the fallback clause: a modern request (known or unknown-newer) against a server without modern
+		// overlap falls back to the initialize handshake, which succeeds when a legacy version is shared
+		legacyShared := false
+		for _, v := range c07Legacy {
+			if slices.Contains(advertised, v) && slices.Contains(transportSet, v) {
+				legacyShared = true
+			}
+		}
+		if requested >= "2026-07-28" && !modern && legacyShared {
+			return fail("fallback-to-initialize-fails "+c.transport, "requested %q, the server has no modern overlap but shares legacy versions: Connect must fall back to initialize and succeed, got: %v", requested, err)
+		}
 		return "connect-error", "", ""
 	}
 	cleanup = append(cleanup, func() { cs.Close() })
